@@ -28,27 +28,52 @@ type Case struct {
 	KK      int    `json:"kk"`    // edges between kept tables: 0 unchanged, 1 only in desired, 2 only in current
 	Dialect string `json:"dialect"`
 	Mode    int    `json:"mode"`
+	// Schemas: 2 = the tables are spread over two schemas (table i lives in schema s<i%2> and is
+	// named t<i/2>, so tables 0 and 1 share a name); statements are then schema-qualified.
+	Schemas int `json:"schemas,omitempty"`
+}
+
+func (c Case) sname(i int) string { return fmt.Sprintf("s%d", i%2) }
+
+// tid is the table's identity in the reference catalogue; tn its (unqualified) name.
+func (c Case) tn(i int) string {
+	if c.Schemas == 2 {
+		return fmt.Sprintf("t%d", i/2)
+	}
+	return tname(i)
+}
+
+func (c Case) tid(i int) string {
+	if c.Schemas == 2 {
+		return c.sname(i) + "." + c.tn(i)
+	}
+	return tname(i)
 }
 
 func tname(i int) string { return fmt.Sprintf("t%d", i) }
 
 // build returns the (current, desired) schemas of the case, built independently.
-func build(c Case, dialect string) (cur, des *schema.Schema) {
+func build(c Case, dialect string) (cur, des *schema.Realm) {
 	intT := func() schema.Type {
 		if dialect == "mysql" {
 			return &schema.IntegerType{T: "bigint"}
 		}
 		return &schema.IntegerType{T: "bigint"}
 	}
-	mk := func(include func(i int) bool, edge func(i, j int) bool) *schema.Schema {
+	mk := func(include func(i int) bool, edge func(i, j int) bool) *schema.Realm {
 		s := schema.New("public")
-		schema.NewRealm(s)
+		r := schema.NewRealm(s)
+		var ss [2]*schema.Schema
+		if c.Schemas == 2 {
+			ss[0], ss[1] = schema.New("s0"), schema.New("s1")
+			r = schema.NewRealm(ss[0], ss[1])
+		}
 		tabs := make([]*schema.Table, c.N)
 		for i := 0; i < c.N; i++ {
 			if !include(i) {
 				continue
 			}
-			t := schema.NewTable(tname(i))
+			t := schema.NewTable(c.tn(i))
 			id := &schema.Column{Name: "id", Type: &schema.ColumnType{Type: intT()}}
 			t.AddColumns(id)
 			for j := 0; j < c.N; j++ {
@@ -56,7 +81,11 @@ func build(c Case, dialect string) (cur, des *schema.Schema) {
 			}
 			t.SetPrimaryKey(schema.NewPrimaryKey(id))
 			tabs[i] = t
-			s.AddTables(t)
+			if c.Schemas == 2 {
+				ss[i%2].AddTables(t)
+			} else {
+				s.AddTables(t)
+			}
 		}
 		for i := 0; i < c.N; i++ {
 			for j := 0; j < c.N; j++ {
@@ -69,7 +98,7 @@ func build(c Case, dialect string) (cur, des *schema.Schema) {
 					RefTable: tabs[j], RefColumns: []*schema.Column{rid}, OnDelete: schema.NoAction, OnUpdate: schema.NoAction})
 			}
 		}
-		return s
+		return r
 	}
 	kept := func(i int) bool { return c.Split[i] == 0 }
 	cur = mk(func(i int) bool { return c.Split[i] != 1 }, func(i, j int) bool { return !(kept(i) && kept(j)) || c.KK != 1 })
@@ -78,13 +107,18 @@ func build(c Case, dialect string) (cur, des *schema.Schema) {
 }
 
 var (
-	reCreate   = regexp.MustCompile("^CREATE TABLE [`\"](\\w+)[`\"]")
-	reAlter    = regexp.MustCompile("^ALTER TABLE [`\"](\\w+)[`\"]")
-	reDropTab  = regexp.MustCompile("^DROP TABLE [`\"](\\w+)[`\"]")
-	reAddFK    = regexp.MustCompile("CONSTRAINT [`\"](fk_\\d+_\\d+)[`\"] FOREIGN KEY \\([^)]*\\) REFERENCES [`\"](\\w+)[`\"]")
+	// an identifier, optionally schema-qualified; the quotes are removed by ident().
+	qid        = "((?:[`\"]\\w+[`\"]\\.)?[`\"]\\w+[`\"])"
+	reCreate   = regexp.MustCompile("^CREATE TABLE " + qid)
+	reAlter    = regexp.MustCompile("^ALTER TABLE " + qid)
+	reDropTab  = regexp.MustCompile("^DROP TABLE " + qid)
+	reAddFK    = regexp.MustCompile("CONSTRAINT [`\"](fk_\\d+_\\d+)[`\"] FOREIGN KEY \\([^)]*\\) REFERENCES " + qid)
 	reDropFK   = regexp.MustCompile("DROP (?:FOREIGN KEY|CONSTRAINT) [`\"](fk_\\d+_\\d+)[`\"]")
-	reDropList = regexp.MustCompile("[`\"](\\w+)[`\"]")
+	reDropList = regexp.MustCompile(qid)
 )
+
+// ident removes the quotes of a (possibly schema-qualified) identifier: `s0`.`t0` -> s0.t0
+func ident(q string) string { return strings.NewReplacer("`", "", "\"", "").Replace(q) }
 
 // replay runs the statements against the reference catalogue.
 func replay(c Case, stmts []string) (problems []string) {
@@ -94,24 +128,33 @@ func replay(c Case, stmts []string) (problems []string) {
 	created, dropped := map[string]int{}, map[string]int{}
 	for i := 0; i < c.N; i++ {
 		if c.Split[i] != 1 {
-			exists[tname(i)] = true
+			exists[c.tid(i)] = true
 		}
 	}
 	cur, des := build(c, c.Dialect)
-	for _, t := range cur.Tables {
-		for _, fk := range t.ForeignKeys {
-			live[fk.Symbol] = [2]string{t.Name, fk.RefTable.Name}
+	tidOf := func(t *schema.Table) string {
+		if c.Schemas == 2 {
+			return t.Schema.Name + "." + t.Name
+		}
+		return t.Name
+	}
+	for _, sc := range cur.Schemas {
+		for _, t := range sc.Tables {
+			for _, fk := range t.ForeignKeys {
+				live[fk.Symbol] = [2]string{tidOf(t), tidOf(fk.RefTable)}
+			}
 		}
 	}
 	for k, s := range stmts {
 		switch {
 		case reCreate.MatchString(s):
-			x := reCreate.FindStringSubmatch(s)[1]
+			x := ident(reCreate.FindStringSubmatch(s)[1])
 			if exists[x] {
 				bad("stmt %d creates %s which exists", k, x)
 			}
 			created[x]++
 			for _, m := range reAddFK.FindAllStringSubmatch(s, -1) {
+				m[2] = ident(m[2])
 				if m[2] != x && !exists[m[2]] {
 					bad("stmt %d: CREATE TABLE %s declares %s referencing %s, which does not exist yet", k, x, m[1], m[2])
 				}
@@ -120,7 +163,7 @@ func replay(c Case, stmts []string) (problems []string) {
 			exists[x] = true
 		case reDropTab.MatchString(s):
 			for _, m := range reDropList.FindAllStringSubmatch(strings.TrimPrefix(s, "DROP TABLE"), -1) {
-				x := m[1]
+				x := ident(m[1])
 				if !exists[x] {
 					bad("stmt %d drops %s which does not exist", k, x)
 				}
@@ -138,7 +181,7 @@ func replay(c Case, stmts []string) (problems []string) {
 				delete(exists, x)
 			}
 		case reAlter.MatchString(s):
-			x := reAlter.FindStringSubmatch(s)[1]
+			x := ident(reAlter.FindStringSubmatch(s)[1])
 			if !exists[x] {
 				bad("stmt %d alters %s which does not exist", k, x)
 			}
@@ -149,6 +192,7 @@ func replay(c Case, stmts []string) (problems []string) {
 				delete(live, m[1])
 			}
 			for _, m := range reAddFK.FindAllStringSubmatch(s, -1) {
+				m[2] = ident(m[2])
 				if !exists[m[2]] {
 					bad("stmt %d adds %s on %s referencing %s, which does not exist", k, m[1], x, m[2])
 				}
@@ -171,10 +215,12 @@ func replay(c Case, stmts []string) (problems []string) {
 	}
 	// final catalogue = desired.
 	wantT, wantFK := map[string]bool{}, map[string]bool{}
-	for _, t := range des.Tables {
-		wantT[t.Name] = true
-		for _, fk := range t.ForeignKeys {
-			wantFK[fk.Symbol] = true
+	for _, sc := range des.Schemas {
+		for _, t := range sc.Tables {
+			wantT[tidOf(t)] = true
+			for _, fk := range t.ForeignKeys {
+				wantFK[fk.Symbol] = true
+			}
 		}
 	}
 	if fmt.Sprint(keys(exists)) != fmt.Sprint(keys(wantT)) {
@@ -213,17 +259,26 @@ func Eval(c Case) (problems []string, stmts []string) {
 	if c.Dialect == "postgres" {
 		differ, planner = postgres.DefaultDiff, postgres.DefaultPlan
 	}
-	changes, err := differ.SchemaDiff(cur, des, schema.DiffNormalized())
+	var changes []schema.Change
+	var err error
+	if c.Schemas == 2 {
+		changes, err = differ.RealmDiff(cur, des, schema.DiffNormalized())
+	} else {
+		changes, err = differ.SchemaDiff(cur.Schemas[0], des.Schemas[0], schema.DiffNormalized())
+	}
 	if err != nil {
 		return []string{"diff: " + err.Error()}, nil
 	}
 	if len(changes) == 0 {
 		return nil, nil
 	}
-	plan, err := planner.PlanChanges(context.Background(), "p", changes, func(o *migrate.PlanOptions) {
+	popt := func(o *migrate.PlanOptions) {
 		o.Mode = migrate.PlanMode(c.Mode)
-		o.SchemaQualifier = new(string)
-	})
+		if c.Schemas != 2 {
+			o.SchemaQualifier = new(string)
+		}
+	}
+	plan, err := planner.PlanChanges(context.Background(), "p", changes, popt)
 	if err != nil {
 		return []string{"planning failed: " + err.Error()}, nil
 	}
@@ -233,10 +288,7 @@ func Eval(c Case) (problems []string, stmts []string) {
 	problems = replay(c, stmts)
 	// the same change set planned again (what `schema apply` does: once for the summary, once to
 	// apply) must give the same, equally valid plan - planning must not consume its input.
-	plan2, err := planner.PlanChanges(context.Background(), "p", changes, func(o *migrate.PlanOptions) {
-		o.Mode = migrate.PlanMode(c.Mode)
-		o.SchemaQualifier = new(string)
-	})
+	plan2, err := planner.PlanChanges(context.Background(), "p", changes, popt)
 	if err != nil {
 		return append(problems, "planning the same change set a second time failed: "+err.Error()), stmts
 	}
@@ -263,7 +315,7 @@ func splits(n int, f func([]int)) {
 
 func Run(r *report.Run) {
 	maxFull := 3
-	r.Rule = "every directed graph with self loops on n tables (n<=3: all 2^(n*n) graphs x all 3^n splits of the tables into kept/created/dropped x 3 modes for edges between kept tables {unchanged, added, dropped} x {MySQL, PostgreSQL} x plan mode {unset, deferred, in-place, dump}; thorough adds n=4: all 65536 graphs x all 81 splits with kept-kept edges added, x 2 dialects, plan mode unset); changes from the real differ, plans from the real planners, every change set planned twice (identical plans required); each plan's statements are replayed from their text by a reference catalogue of existing tables and live foreign keys; non-trivial = case with a non-empty plan; distinct by construction"
+	r.Rule = "every directed graph with self loops on n tables (n<=3: all 2^(n*n) graphs x all 3^n splits of the tables into kept/created/dropped x 3 modes for edges between kept tables {unchanged, added, dropped} x {MySQL, PostgreSQL} x plan mode {unset, deferred, in-place, dump}, and for n in 2..3 also with the tables spread over two schemas so that tables of different schemas share a name (realm diff, schema-qualified statements); thorough adds n=4: all 65536 graphs x all 81 splits with kept-kept edges added, x 2 dialects, plan mode unset); changes from the real differ, plans from the real planners, every change set planned twice (identical plans required); each plan's statements are replayed from their text by a reference catalogue of existing tables and live foreign keys; non-trivial = case with a non-empty plan; distinct by construction"
 	r.Assumptions = []string{
 		"statement text is parsed by regular expressions over names the generator chose (t<i>, fk_<i>_<j>)",
 		"random larger graphs are not claimed (sampling is a different family)",
@@ -327,21 +379,28 @@ func Run(r *report.Run) {
 					continue // no kept tables: the three edge modes coincide
 				}
 				for _, d := range []string{"mysql", "postgres"} {
-					for _, m := range modes {
-						c := Case{j.n, j.graph, append([]int(nil), sp...), kk, d, m}
-						key := fmt.Sprintf("%d-%v", w, c)
-						cur.Store(key, time.Now())
-						problems, stmts := Eval(c)
-						cur.Delete(key)
-						plans.Add(1)
-						if len(stmts) > 0 {
-							nonEmpty.Add(1)
+					for mi, m := range modes {
+						// two-schema layout (same-named tables in different schemas) for n in 2..3, default mode.
+						layouts := []int{0}
+						if mi == 0 && j.n >= 2 && j.n <= 3 {
+							layouts = []int{0, 2}
 						}
-						if len(problems) > 0 {
-							r.Violate("", fmt.Sprintf("n=%d graph=%s split=%v kk=%d %s mode=%d: %s\n    plan: %s", c.N, edges(c), c.Split, c.KK, c.Dialect, c.Mode, strings.Join(problems, " | "), strings.Join(stmts, ";\n          ")), c)
-						}
-						if j.n == 3 && j.graph == 0b010001100 && kk == 1 && d == "postgres" && m == 0 && sp[0] == 0 && sp[1] == 1 && sp[2] == 2 {
-							r.Sample(map[string]any{"case": c, "edges": edges(c), "plan": stmts})
+						for _, lay := range layouts {
+							c := Case{N: j.n, Graph: j.graph, Split: append([]int(nil), sp...), KK: kk, Dialect: d, Mode: m, Schemas: lay}
+							key := fmt.Sprintf("%d-%v", w, c)
+							cur.Store(key, time.Now())
+							problems, stmts := Eval(c)
+							cur.Delete(key)
+							plans.Add(1)
+							if len(stmts) > 0 {
+								nonEmpty.Add(1)
+							}
+							if len(problems) > 0 {
+								r.Violate("", fmt.Sprintf("n=%d graph=%s split=%v kk=%d %s mode=%d schemas=%d: %s\n    plan: %s", c.N, edges(c), c.Split, c.KK, c.Dialect, c.Mode, c.Schemas, strings.Join(problems, " | "), strings.Join(stmts, ";\n          ")), c)
+							}
+							if j.n == 3 && j.graph == 0b010001100 && kk == 1 && d == "postgres" && m == 0 && sp[0] == 0 && sp[1] == 1 && sp[2] == 2 {
+								r.Sample(map[string]any{"case": c, "edges": edges(c), "plan": stmts})
+							}
 						}
 					}
 				}
